@@ -32,6 +32,35 @@ func vScenarioC07(rc *runCtx) {
 		// the very same path named twice on the command line: two paths with the same base name like any others
 		spec.paths = append(spec.paths, spec.paths[tp.Draw("c07.samepath.which", len(spec.paths))])
 	}
+	if tp.Bool("c07.casetwin", 200) {
+		// two sources whose names differ in letter case only: two different names like any others
+		k := tp.Draw("c07.casetwin.which", len(spec.paths))
+		base := filepath.Base(spec.paths[k])
+		twin := strings.Map(func(r rune) rune {
+			switch {
+			case r >= 'a' && r <= 'z':
+				return r - 32
+			case r >= 'A' && r <= 'Z':
+				return r + 32
+			}
+			return r
+		}, base)
+		if st, err := os.Stat(spec.paths[k]); twin != base && err == nil && (st.Mode().IsRegular() || cfg.dirMode) {
+			parent := filepath.Join(src, "casetwin")
+			os.MkdirAll(parent, 0755)
+			p := filepath.Join(parent, twin)
+			if st.IsDir() {
+				os.MkdirAll(p, 0755)
+				data, _ := vGenContent(tp, 300)
+				vWriteFile(filepath.Join(p, "inside.txt"), data)
+			} else {
+				data, _ := vGenContent(tp, 1+tp.Draw("c07.casetwin.size", 3000))
+				vWriteFile(p, data)
+			}
+			spec.paths = append(spec.paths, p)
+			rc.res.Scenario["case_twin"] = twin
+		}
+	}
 	if mode == 2 {
 		// a source whose name is at / near the 255-byte limit, colliding at the destination
 		n := 251 + tp.Draw("longlen", 5) // 251..255
